@@ -28,7 +28,7 @@ type opIn struct {
 }
 
 type input struct {
-	Kind  string `json:"kind"` // seq | conc | wake
+	Kind  string `json:"kind"` // seq | conc | wake | mid
 	Cap   int    `json:"cap"`
 	Batch int    `json:"batch"`
 	Ops   []opIn `json:"ops,omitempty"`
@@ -37,6 +37,12 @@ type input struct {
 	PerPusher int `json:"per_pusher,omitempty"`
 	BatchLen  int `json:"batch_len,omitempty"`
 	Poppers   int `json:"poppers,omitempty"`
+	// mid: Pre pushes run first; then, with the queue mutex held by the harness, CritPos of the
+	// Mids pushes are started (they block on the mutex), then Pop (takes the token, blocks on the
+	// mutex), then the remaining Mids pushes; the mutex is released.
+	Pre     [][]int64 `json:"pre,omitempty"`
+	Mids    [][]int64 `json:"mids,omitempty"`
+	CritPos int       `json:"crit_pos,omitempty"`
 }
 
 // ---- tie T: statement order in Pop and Push ----
@@ -301,6 +307,98 @@ func run(raw json.RawMessage) (common.Case, error) {
 			_ = term
 		}
 		return c, nil
+	case "mid":
+		q := newQueue(in.Cap, in.Batch)
+		mk := func(idsIn []int64) []*notifier.Alert {
+			var as []*notifier.Alert
+			for _, id := range idsIn {
+				as = append(as, mkAlert(id))
+			}
+			return as
+		}
+		for _, p := range in.Pre {
+			q.Push(mk(p))
+		}
+		if !alert.VerifC46Token(q) {
+			c.Coq, c.Class = "CSkip", "mid/no-token"
+			return c, nil
+		}
+		waitFor := func(cond func() bool) bool {
+			dl := time.Now().Add(3 * time.Second)
+			for !cond() {
+				if time.Now().After(dl) {
+					return false
+				}
+				time.Sleep(50 * time.Microsecond)
+			}
+			return true
+		}
+		alert.VerifC46Lock(q)
+		waiters := 0
+		var wg sync.WaitGroup
+		startPush := func(p []int64) bool {
+			if len(p) == 0 { // returns before touching the mutex
+				q.Push(nil)
+				return true
+			}
+			as := mk(p)
+			wg.Add(1)
+			go func() { defer wg.Done(); q.Push(as) }()
+			waiters++
+			return waitFor(func() bool { return alert.VerifC46Waiters(q) >= waiters })
+		}
+		pos := in.CritPos
+		if pos > len(in.Mids) {
+			pos = len(in.Mids)
+		}
+		ok := true
+		for _, p := range in.Mids[:pos] {
+			ok = ok && startPush(p)
+		}
+		popDone := make(chan []*notifier.Alert, 1)
+		go func() { popDone <- q.Pop(nil) }()
+		waiters++
+		ok = ok && waitFor(func() bool { return !alert.VerifC46Token(q) && alert.VerifC46Waiters(q) >= waiters })
+		for _, p := range in.Mids[pos:] {
+			ok = ok && startPush(p)
+		}
+		time.Sleep(200 * time.Microsecond)
+		alert.VerifC46Unlock(q)
+		if !ok {
+			return c, fmt.Errorf("could not line the calls up behind the queue mutex")
+		}
+		var out []int64
+		select {
+		case r := <-popDone:
+			out = ids(r)
+		case <-time.After(5 * time.Second):
+			c.GoPred, c.Sig, c.Coq = "Pop holding the token did not finish after the mutex was released", "hang", "CSkip"
+			return c, nil
+		}
+		wg.Wait()
+		rest := ids(alert.VerifC46Queue(q))
+		tok := alert.VerifC46Token(q)
+		lists := func(xs [][]int64) string {
+			var o []string
+			for _, x := range xs {
+				o = append(o, common.ZList(x))
+			}
+			return common.List(o)
+		}
+		c.Coq = common.App("CMid", common.Z(int64(in.Cap)), common.Z(int64(in.Batch)), lists(in.Pre), lists(in.Mids), common.ZList(out), common.Tuple(common.ZList(rest), common.Bool(tok)))
+		c.Obs = map[string]any{"out": out, "queue": rest, "token": tok}
+		c.Class = fmt.Sprintf("mid/pushes=%d/crit_pos=%d", len(in.Mids), pos)
+		c.Nontrivial = pos >= 1
+		if len(rest) > in.Cap {
+			c.GoPred, c.Sig = "queue longer than its capacity", "over-capacity"
+		}
+		if len(out) > in.Batch {
+			c.GoPred, c.Sig = "batch larger than the batch size", "batch-too-large"
+		}
+		if len(rest) > 0 && !tok {
+			c.GoPred, c.Sig = "alerts queued, no popper running, wake-up token not set", "lost-wakeup"
+		}
+		return c, nil
 	case "conc":
 		q := newQueue(in.Cap, in.Batch)
 		total := in.Pushers * in.PerPusher * in.BatchLen
@@ -399,7 +497,7 @@ func gen(r *rand.Rand, tier string, n int) []any {
 	next := int64(1)
 	for i := 0; i < n; i++ {
 		switch k := r.Intn(20); {
-		case k < 15:
+		case k < 9:
 			in := input{Kind: "seq", Cap: r.Intn(7), Batch: 1 + r.Intn(4)}
 			if r.Intn(4) == 0 {
 				in.Cap = 5 + r.Intn(20)
@@ -433,7 +531,32 @@ func gen(r *rand.Rand, tier string, n int) []any {
 				in.Ops = append(in.Ops, opIn{Push: p})
 			}
 			out = append(out, in)
-		case k < 17:
+		case k < 14:
+			in := input{Kind: "mid", Cap: 1 + r.Intn(6), Batch: 1 + r.Intn(4)}
+			id := int64(1)
+			mkp := func(sz int) []int64 {
+				var p []int64
+				for k := 0; k < sz; k++ {
+					v := id
+					id++
+					if r.Intn(6) == 0 {
+						v = -v
+					}
+					p = append(p, v)
+				}
+				return p
+			}
+			in.Pre = append(in.Pre, mkp(1+r.Intn(3)))
+			if r.Intn(2) == 0 {
+				in.Pre = append(in.Pre, mkp(r.Intn(in.Cap+2)))
+			}
+			in.Pre[0][0] = abs64(in.Pre[0][0]) // at least one kept alert: the token is set
+			for j := 0; j < 1+r.Intn(3); j++ {
+				in.Mids = append(in.Mids, mkp(r.Intn(4)))
+			}
+			in.CritPos = r.Intn(len(in.Mids) + 1)
+			out = append(out, in)
+		case k < 16:
 			var p []int64
 			for k := 0; k < r.Intn(4); k++ {
 				id := int64(k + 1)
@@ -451,6 +574,13 @@ func gen(r *rand.Rand, tier string, n int) []any {
 	}
 	sort.SliceStable(out, func(a, b int) bool { return false })
 	return out
+}
+
+func abs64(v int64) int64 {
+	if v < 0 {
+		return -v
+	}
+	return v
 }
 
 func main() {
